@@ -219,8 +219,19 @@ class Extract:
                 elif is_raise_block(s.body):
                     self.walk(s.orelse, guards, ctx)
                 else:
+                    # a test of the VALUE of a field decoded / held so far (not of its presence, the next tag or the version): elements under it
+                    # exist only for some values of that field - recorded so that reader and writer can be compared on it
+                    valued = [x for x in ast.walk(s.test) if is_self_attr(x)] and not any(isinstance(x, ast.Call) and isinstance(x.func, ast.Attribute) and x.func.attr in ('is_tag_next', 'is_type_next') for x in ast.walk(s.test))
+                    valued = bool(valued) and self.presence(s.test) is None      # `if self.operation is not None` asks for presence, not for a value
+                    if valued:
+                        self.cond_stack.append(('value', ' '.join(U(s.test).split())[:60]))
                     self.walk(s.body, guards, ctx if keep else ('cond', U(s.test)[:50], 'opt'))
+                    if valued:
+                        self.cond_stack.pop()
+                        self.cond_stack.append(('value', 'not (' + ' '.join(U(s.test).split())[:54] + ')'))
                     self.walk(s.orelse, guards, ctx if keep else ('cond', 'not ' + U(s.test)[:50], 'opt'))
+                    if valued:
+                        self.cond_stack.pop()
             elif isinstance(s, ast.While):
                 tn = self.tagnext(s.test)
                 self.walk(s.body, guards, ('tag', tn, 'rep') if tn else ('loop', U(s.test), 'rep'))
